@@ -8,6 +8,9 @@ CONSTANTS
   BodyKinds <- MCBodyKinds
   CacheError = TRUE
   CacheDefault = TRUE
+  HandlerDecidesEmpty = TRUE
+  KeepFirstError = TRUE
+  Contexts <- MCContexts
   Depth = 0
 INVARIANT TypeOK
 INVARIANT AtMostOneParse
@@ -21,4 +24,8 @@ INVARIANT RoundTrip
 INVARIANT BlankIsNotEmpty
 INVARIANT CustomErrorIsKept
 INVARIANT UnsupportedIs415
+INVARIANT LaterAccessesObserveFirstError
+INVARIANT MalformedCarriesParserMessage
+INVARIANT HandlerDecidesEmptyLaw
 PROPERTY MCNeverReparsed
+PROPERTY MCErrorIsStable
